@@ -457,12 +457,20 @@ func cwRunBehaviour(beh []map[string]any, d time.Duration) (o cwOutcome) {
 				continue
 			}
 			if !rec.waitNew(flushWait) {
-				if o.mismatch == "" {
-					o.mismatch = fmt.Sprintf("TimerFire: no flush within %v although %v are buffered and MaxDelay is %v", flushWait, idsOf(mon.pend), d)
-					o.missing = len(mon.pend) > 0
+				// nothing flushed although items wait and a delay is configured: give the timer its full chance
+				stuck := len(mon.pend) > 0 && cfg.Delay && !rec.waitNew(d+3*time.Second)
+				if stuck {
+					o.missing = true
+				}
+				if o.mismatch == "" || stuck {
+					o.mismatch = fmt.Sprintf("TimerFire: no flush within %v although %v are buffered and MaxDelay is %v", flushWait+d+3*time.Second, idsOf(mon.pend), d)
 					flushWait = d + 300*time.Millisecond
 				}
-				continue
+				if !stuck && len(mon.pend) > 0 && cfg.Delay {
+					// it came late: fall through to take it
+				} else {
+					continue
+				}
 			}
 			bs := rec.take()
 			got = batchIDs(bs)
